@@ -4,6 +4,15 @@ Proof side: coq/props/C02.v (Model.Runner: every error-level report of the
 parse stage and every lift/SSA error of a user definition is displayed and
 makes the exit status 1, for every failure class, order and option set that
 does not allow-list it; exit 0 only if every user definition was analysed).
+Derived, not assumed (coq/props/C02.v over Model.Includes + Model.Front +
+Model.Runner, all file systems): a named path that cannot be opened, an
+unreadable file, a named file that does not parse, an unresolvable include of a
+named file put an error report into the project handed to the runner whose
+location passes the file filter, so it is displayed and the exit status is 1;
+the user-input ids are the ids of the named files whatever the order in which
+they are read.  Tie of that front to the code (engine front, lib/c02front.py):
+Model.Includes.run_project + Model.Front on the file system of every project of
+the matrix vs the FileLibrary / report collection of the real parse_files.
 Tie to the code (engine e2e): the failure-injection matrix — every failure
 class x every injection position in otherwise clean projects — run through
 the real binary (default options, verbose and not), compared with the model
@@ -16,6 +25,7 @@ import re
 import shutil
 
 import common
+import c02front
 import e2e
 
 
@@ -64,6 +74,17 @@ template Gamma(n) {
 }
 """
 
+USER_C = """pragma circom 2.0.0;
+include "b.circom";
+template Delta(n) {
+    signal input in;
+    signal output out;
+    component g = Gamma(n);
+    g.in <== in;
+    out <== g.out;
+}
+"""
+
 MAIN_A = "component main = Alpha(2);\n"
 MAIN_B = "component main = Gamma(2);\n"
 
@@ -79,6 +100,13 @@ def bases():
                 ["a.circom", "b.circom"]))
     out.append(("prog2", {"a.circom": USER_A, "b.circom": USER_B.replace('include "lib.circom";', 'include "a.circom";') + MAIN_B,
                           "lib.circom": LIB}, ["b.circom", "a.circom"]))
+    # a named file that another named file includes, in both orders on the command line and in both modes
+    # (the stack is LIFO: the file named LAST is read first and pulls the files it includes before their own turn)
+    b_inc_a = USER_B.replace('include "lib.circom";', 'include "a.circom";')
+    out.append(("lib2r", {"a.circom": USER_A, "b.circom": b_inc_a, "lib.circom": LIB}, ["b.circom", "a.circom"]))
+    out.append(("prog2r", {"a.circom": USER_A, "b.circom": b_inc_a + MAIN_B, "lib.circom": LIB}, ["a.circom", "b.circom"]))
+    out.append(("chain3", {"a.circom": USER_A, "b.circom": b_inc_a, "c.circom": USER_C, "lib.circom": LIB},
+                ["a.circom", "b.circom", "c.circom"]))
     return out
 
 
@@ -110,6 +138,12 @@ def injections(ctx):
             f2 = dict(files)
             f2[u] = f2[u].replace("pragma circom 2.0.0;\n", 'pragma circom 2.0.0;\ninclude "bad.circom";\n', 1)
             add("%s-include-nonutf8-%s" % (btag, u), f2, argv, "unreadable-file", raw={"bad.circom": bad})
+        # 2b. an include statement of a named file that resolves nowhere (relative, in a missing directory, absolute)
+        for u in user:
+            for k, inc in enumerate(("nothere.circom", "nodir/nothere.circom", "/nonexistent-root/nothere.circom")):
+                f2 = dict(files)
+                f2[u] = f2[u].replace("pragma circom 2.0.0;\n", 'pragma circom 2.0.0;\ninclude "%s";\n' % inc, 1)
+                add("%s-unresolved-include%d-%s" % (btag, k, u), f2, argv, "unresolved-include")
         # chmod 000 (only meaningful when not running as root; decided at run time)
         add("%s-chmod000" % btag, dict(files, **{"locked.circom": "pragma circom 2.0.0;\ntemplate Y() { signal input a; signal output b; b <== a; }\n"}),
             argv + ["locked.circom"], "unreadable-file", uncond=False, note="chmod000")
@@ -122,7 +156,8 @@ def injections(ctx):
         # 4. lexical / syntactic error at each token of each user file
         for u in user:
             toks = list(TOKEN.finditer(files[u]))
-            step = 1
+            # the bases added for the include-order shapes repeat the sources of lib2/prog2: every second token in quick
+            step = 2 if quick and btag in ("lib2r", "prog2r", "chain3") else 1
             for ti in range(0, len(toks), step):
                 m = toks[ti]
                 src = files[u]
@@ -210,6 +245,46 @@ NOTES_TXT = ("pragma circom 2.0.0;\ntemplate Notes(n) {\n    signal input in;\n 
              "    out <== in * n;\n}\n")
 
 
+# Spec.NoSilentSpec.class_producer, by the class names of the matrix: which mirror produces the report of a class
+# (includes: Model.Includes through Model.Front; lift: Err(report) of a definition of a named file; other-*: a
+# report of a stage outside both mirrors, without label / located in a named file)
+CLASS_PRODUCER = {
+    "missing-file": "includes-os", "unreadable-file": "includes-os", "lexical-error": "includes-parse",
+    "syntax-error": "includes-parse", "unresolved-include": "includes-include",
+    "duplicate-parameter": "lift", "lift-failure": "lift",
+    "bad-pragma": "other-unlocated", "several-mains": "other-unlocated",
+    "invalid-tuple-or-anonymous": "other-located", "duplicate-definition": "other-located",
+}
+
+
+def producers(t):
+    """The shapes of `failure_event` (Spec.NoSilentSpec) the ground truth of a project satisfies."""
+    out = set()
+    user = set(t.user_files)
+    for q in t.parse:
+        r = t.payload[q][0]
+        if r["level"] != "error":
+            continue
+        in_user = any(f in user for f in r["pfiles"])
+        if r["id"] == "P1000":
+            if not r["pfiles"]:
+                out.add("includes-os")
+            elif in_user and r["message"].startswith("Failed to open file"):
+                out.add("includes-include")
+            elif in_user:
+                out.add("includes-parse")
+        elif not r["pfiles"]:
+            out.add("other-unlocated")
+        elif in_user:
+            out.add("other-located")
+    for d in t.defs:
+        if d["user"] and d["err"] is not None:
+            r = t.payload[d["err"]][0]
+            if r["level"] == "error" and (not r["pfiles"] or any(f in user for f in r["pfiles"])):
+                out.add("lift")
+    return out
+
+
 def has_error(events):
     return any(e[0] == "diag" and e[1] == "error" for e in events)
 
@@ -247,7 +322,12 @@ def run(ctx, proofs):
                     p.meta["readable_anyway"] = True
                 except OSError:
                     p.meta["readable_anyway"] = False
-        truths = [e2e.Truth(t) for t in e2e.ground_truth(projects)]
+        raw_truths = e2e.ground_truth(projects)
+        truths = [e2e.Truth(t) for t in raw_truths]
+        # ---- the front: Model.Includes + Model.Front on the real file system of every project vs the FileLibrary and
+        # the report collection of the real parse_files (the premise side of C02_failure_classes_reported,
+        # C02_clean_only_if_all_read_and_analysed, C02_user_ids_are_named_files)
+        front_dis, front_stats = c02front.compare(projects, raw_truths)
         runs = []
         for i in range(len(projects)):
             runs.append({"p": i, "level": "warning", "omit_level": True, "allow": [], "verbose": True, "sarif": True})
@@ -269,6 +349,7 @@ def run(ctx, proofs):
         per_class = {}
         silent = []
         known_hits = {}
+        table_mismatch = []
         for (p, cls, uncond), k in zip(inj, range(nbase, len(projects))):
             t = truths[k]
             st = per_class.setdefault(cls, {"injected": 0, "applicable": 0, "reported": 0, "silent": 0, "still_clean_and_valid": 0})
@@ -292,6 +373,16 @@ def run(ctx, proofs):
                     # is an input file whatever its suffix: a missing one must be reported; an existing one is
                     # read like any other named file and is judged by clean_problems below
                     applicable = p.tag.endswith("-nosuffix-missing")
+                if applicable and not t.bad and r is runs[2 * k]:
+                    prods = producers(t)
+                    for q in prods:
+                        st.setdefault("manifests_by", {}).setdefault(q, 0)
+                        st["manifests_by"][q] += 1
+                    want = CLASS_PRODUCER.get(cls)
+                    kf_case = cls == "duplicate-definition" and t.t.get("mode") == "library"
+                    if uncond and want and want not in prods and not kf_case:
+                        table_mismatch.append({"tag": p.tag, "class": cls, "expected_producer": want, "found": sorted(prods),
+                                               "project": p.describe()})
                 if applicable:
                     st["applicable"] += 1
                     if err:
@@ -329,8 +420,25 @@ def run(ctx, proofs):
                           {"input": f["project"], "project": f["project"], "run": f["run"], "impl": f["what"],
                            "spec": "an error-level report is displayed and the exit status is non-zero; `No issues found.` only if every "
                                    "user file was read and every definition analysed"})
+        if (silent or fail) and front_dis:
+            ctx.coverage["front_disagreements_first"] = {"tag": front_dis[0]["project"]["tag"], "model": front_dis[0]["model"],
+                                                         "impl": front_dis[0]["impl"]}
         if not silent and not fail:
-            if dis:
+            if front_dis:
+                d = front_dis[0]
+                ctx.violation("correspondence Model.Includes + Model.Front vs parser::parse_files broken on the injection matrix "
+                              "(%d projects; first %s): FileLibrary / user inputs / error reports differ"
+                              % (len(front_dis), d["project"]["tag"]),
+                              {"broken": "correspondence front (Model.Includes.run_project, Model.Front.front_run)", "first": d,
+                               "count": len(front_dis), "project": d["project"]}, no_input=True)
+            elif table_mismatch:
+                d = table_mismatch[0]
+                ctx.violation("failure class `%s` does not manifest itself through the producer Spec.NoSilentSpec.class_producer names "
+                              "(%s; found %s) in %d injected projects, first %s"
+                              % (d["class"], d["expected_producer"], d["found"], len(table_mismatch), d["tag"]),
+                              {"broken": "Spec.NoSilentSpec.class_producer / failure_event vs the pipeline", "first": d,
+                               "count": len(table_mismatch), "project": d["project"]}, no_input=True)
+            elif dis:
                 d = dis[0]
                 ctx.violation("correspondence Model.Runner vs the circomspect binary broken on the injection matrix (%d runs, first: %s)"
                               % (len(dis), "; ".join(d["what"])[:300]),
@@ -358,6 +466,8 @@ def run(ctx, proofs):
             "per_class": per_class,
             "known_finding_classes_hit": sorted(known_hits),
             "disagreements_model_vs_impl": len(dis), "spec_failures": len(silent) + len(fail),
+            "front": dict(front_stats, disagreements=len(front_dis)),
+            "class_table_mismatches": len(table_mismatch),
             "samples": [{"tag": p.tag, "class": c, "argv": p.argv} for p, c, _ in inj[:: max(1, len(inj) // 4)][:4]],
         })
         ctx.assumptions += [
